@@ -633,7 +633,7 @@ def kern_indep(U: Node) -> Static:
     return Static(
         f"kern_indep({U.name})",
         2,
-        [Site("s", U, lambda xp, args, env: (clipp(xp, args[0]),))],
+        [Site("s", U, lambda xp, args, env: (clipp(xp, args[0] + (args[1] if args[1] is not None else 0.0)),))],
         lambda xp, args, env: (args[0] + 0.5, num(xp, env["s"]) + (args[1] if args[1] is not None else 0.0)),
         [],
         unit=False,
@@ -787,7 +787,7 @@ def dimap_std(U: Node) -> Dimap:
         U,
         lambda xp, t, e: (xp.clip(t * e, 0.1, 0.9),),
         lambda xp, args, xf, ret: (num(xp, ret) * 2.0 + args[1], xf[0]),
-        [(0.3, 2.0), (0.6, 1.0), (0.45, 2.0)],
+        [(0.3, 2.0), (0.6, 1.5), (0.45, 1.0)],
         "std",
     )
 
@@ -1096,6 +1096,79 @@ def wrap(raw: Node, variant: int = 0) -> Static:
     return w
 
 
+def _dep_args(raw: Node):
+    """argument map for `raw` computed from an EARLIER CHOICE a (and theta): the choice controls the
+    combinator's arguments (vmap parameters, scan carry, switch index, mask / or_else flag, ...)"""
+    k = raw.kind
+    if k == "vmap":
+        n = raw.n
+        return lambda xp, args, env: (args[0] * (0.5 + 0.5 * _f(xp, env["a"])) * xp.asarray(np.array([1.0, 0.5, 0.75, 0.9][:n], dtype=np.float32)),)
+    if k == "scan":
+        n = raw.n
+        if raw.xs:
+            return lambda xp, args, env: (args[0] + _f(xp, env["a"]), xp.asarray(np.arange(n, dtype=np.float32) * 0.25))
+        return lambda xp, args, env: (args[0] + _f(xp, env["a"]), None)
+    if k == "switch":
+        nb = len(raw.branches)
+        return lambda xp, args, env: (xp.asarray(env["a"]).astype(xp.int32),) + tuple((args[0],) for _ in range(nb))
+    if k == "mask":
+        return lambda xp, args, env: (env["a"], args[0])
+    if k == "dimap":
+        return lambda xp, args, env: (args[0], 1.0 + _f(xp, env["a"]))
+    if k == "or_else":
+        return lambda xp, args, env: (env["a"], (args[0],), (args[0],))
+    if k == "mix":
+        nb = len(raw.branches)
+        return lambda xp, args, env: (xp.asarray(np.array([0.0, 0.7, -0.4][:nb], dtype=np.float32)) * (1.0 + _f(xp, env["a"])),) + tuple((args[0],) for _ in range(nb))
+    if k in ("iterate", "iterate_final"):
+        return lambda xp, args, env: (args[0] + _f(xp, env["a"]),)
+    if k in ("accumulate", "reduce"):
+        n = raw.n
+        return lambda xp, args, env: (args[0] + _f(xp, env["a"]), xp.asarray(np.arange(n, dtype=np.float32) * 0.25))
+    if k in ("masked_iterate", "masked_iterate_final"):
+        n = raw.n
+        return lambda xp, args, env: (args[0] * 1.0, xp.logical_or(xp.asarray(np.array([(i % 2 == 0) for i in range(n)])), xp.asarray(env["a"])))
+    if k == "repeat" or raw.unit:
+        return lambda xp, args, env: (mixp(xp, _f(xp, env["a"]), args[0]),)
+    raise ValueError(k)
+
+
+def dep(raw: Node) -> Static:
+    """a ~ flip(theta); s ~ raw(args computed from a): an earlier choice controls the combinator"""
+    return Static(
+        f"dep({raw.name})",
+        1,
+        [Site("a", "flip", lambda xp, args, env: (args[0],)), Site("s", raw, _dep_args(raw))],
+        lambda xp, args, env: num(xp, env["s"]) + _f(xp, env["a"]),
+        [(t,) for t in THETAS],
+    )
+
+
+def vec_then_leaf(raw: Node) -> Static:
+    """a vectorised call at a non-final address followed by sibling leaves (key-derivation shape)"""
+    w = wrap(raw)
+    argfn = w.sites[0].argfn
+    return Static(
+        f"vec_then_leaf({raw.name})",
+        1,
+        [Site("v", raw, argfn), Site("y", "flip", lambda xp, args, env: (0.5,)), Site("z", "flip", lambda xp, args, env: (0.4,))],
+        lambda xp, args, env: num(xp, env["v"]) + _f(xp, env["y"]) + 2.0 * _f(xp, env["z"]),
+        [(t,) for t in THETAS],
+    )
+
+
+def leaf_then_vec(raw: Node) -> Static:
+    w = wrap(raw)
+    argfn = w.sites[0].argfn
+    return Static(
+        f"leaf_then_vec({raw.name})",
+        1,
+        [Site("y", "flip", lambda xp, args, env: (0.5,)), Site("v", raw, argfn), Site("z", "flip", lambda xp, args, env: (0.4,))],
+        lambda xp, args, env: num(xp, env["v"]) + _f(xp, env["y"]) + 2.0 * _f(xp, env["z"]),
+        [(t,) for t in THETAS],
+    )
+
+
 # --------------------------------------------------------------------------------------------
 # catalog
 
@@ -1153,6 +1226,14 @@ def catalog(tier: str, continuous: bool = True) -> list[Node]:
     progs += [Scan(kern(f), 0, xs=True), Scan(kern(f), 1, xs=True)]
     if continuous:
         progs += [Vmap(flipnorm(), 2, 0), Scan(kern(NormalD()), 2, xs=True), Switch([flipnorm(), f]), MaskN(flipnorm())]
+    # an earlier choice controls the combinator's arguments; vector calls with sibling sites
+    for raw in raw_over(f, 2):
+        progs.append(dep(raw))
+    progs += [
+        vec_then_leaf(Vmap(f, 3, 0)), vec_then_leaf(Repeat(f, 3)), vec_then_leaf(Scan(kern(f), 3, xs=False)),
+        leaf_then_vec(Vmap(f, 3, 0)), leaf_then_vec(Scan(kern(f), 2, xs=True)),
+        Scan(kern_indep(f), 3, xs=True), dep(Scan(kern_indep(f), 2, xs=True)),
+    ]
     # depth 2: outer over wrapped inner
     main = ("vmap", "repeat", "scan", "switch", "mask", "dimap", "or_else", "mix")
     inners = raw_over(f, 2)
